@@ -438,4 +438,5 @@ def run_program(program, ctx):
 
 
 def cleanup():
-    seams.uninstall()
+    from sim import solver_sim
+    solver_sim.cleanup()
